@@ -58,7 +58,7 @@ def h_leap_mono(ctx):
 
 
 # ---- 2. construction: utc=True adds exactly 42.184 s + leap seconds from 1972-01-01 on
-def _offset_harness(ctx, m, mode):
+def _offset_harness(ctx, m, mode, form="values"):
     y = ctx.int("y", lo=-4712, sample=(1950, 2100))
     d = ctx.int("d", lo=1, hi=31)
     h = ctx.int("h", lo=0, hi=23)
@@ -66,17 +66,19 @@ def _offset_harness(ctx, m, mode):
     s = ctx.int("s", lo=0, hi=59)
     ctx.assume(civil_valid(y, m, d))
     plain = ctx.new(EPOCH, y, m, d, h, mi, s)
+    # the civil date given value by value, or as one tuple / one list (every documented form takes the same keywords)
+    pos = {"values": (y, m, d, h, mi, s), "tuple": ((y, m, d, h, mi, s),), "list": ([y, m, d, h, mi, s],)}[form]
     if mode == "utc":
-        e = ctx.new(EPOCH, y, m, d, h, mi, s, utc=True)
+        e = ctx.new(EPOCH, *pos, utc=True)
         want = ite(y >= 1972, 42.184 + iers_leap_count(y, m), 0.0)
     elif mode == "both":
         # an explicit leap_seconds value replaces the table value also when utc=True is given with it
         k = ctx.int("k", lo=1, hi=60)
-        e = ctx.new(EPOCH, y, m, d, h, mi, s, utc=True, leap_seconds=k)
+        e = ctx.new(EPOCH, *pos, utc=True, leap_seconds=k)
         want = ite(y >= 1972, 42.184 + k, 0.0)
     else:
         k = ctx.int("k", lo=1, hi=60)
-        e = ctx.new(EPOCH, y, m, d, h, mi, s, leap_seconds=k)
+        e = ctx.new(EPOCH, *pos, leap_seconds=k)
         want = ite(y >= 1972, 42.184 + k, 0.0)
     diff = (ctx.field(e, "_jde") - ctx.field(plain, "_jde")) * 86400
     if ctx.native:
@@ -85,21 +87,24 @@ def _offset_harness(ctx, m, mode):
         ctx.vc("offset == 42.184 + leap seconds (from 1972-01-01), 0 before", diff == want)
 
 
-@P.harness("construct/utc-offset", cases=[dict(m=k) for k in range(1, 13)],
+_FORMS = [dict(m=k, form=f) for k in range(1, 13) for f in ("values", "tuple", "list")]
+
+
+@P.harness("construct/utc-offset", cases=_FORMS,
            functions=[EPOCH + ".set", EPOCH + "._compute_jde", EPOCH + ".__init__", EPOCH + "._check_values"],
            crosscheck=5)
-def h_utc(ctx, m):
-    _offset_harness(ctx, m, "utc")
+def h_utc(ctx, m, form):
+    _offset_harness(ctx, m, "utc", form)
 
 
-@P.harness("construct/leap_seconds-override", cases=[dict(m=k) for k in range(1, 13)], crosscheck=5)
-def h_override(ctx, m):
-    _offset_harness(ctx, m, "override")
+@P.harness("construct/leap_seconds-override", cases=_FORMS, crosscheck=5)
+def h_override(ctx, m, form):
+    _offset_harness(ctx, m, "override", form)
 
 
-@P.harness("construct/utc-and-leap_seconds-together", cases=[dict(m=k) for k in range(1, 13)], crosscheck=5)
-def h_both(ctx, m):
-    _offset_harness(ctx, m, "both")
+@P.harness("construct/utc-and-leap_seconds-together", cases=_FORMS, crosscheck=5)
+def h_both(ctx, m, form):
+    _offset_harness(ctx, m, "both", form)
 
 
 # ---- 3. read-back: complete enumeration of the stated domain, on the real code
@@ -179,3 +184,6 @@ def g_deltat(tier):
             yield (("band", y, m), abs(dt - ref) <= 3.5, "tt2ut %.3f vs %.3f" % (dt, ref))
     lst = Epoch.get_last_leap_second()
     yield (("last leap second",), lst == (2016, 12, 31.0, 27), repr(lst))
+
+
+P.frame_check()
